@@ -171,6 +171,8 @@ fn dispatch_shapes(ctx: &Ctx, rep: &mut Report) {
         // fewer parameters than the function reads (the missing ones are defaults, never leftovers)
         "8", "8;10", "8;10;", "8;;7", "8;10;20", "8:1;10", "08;010;020",
         // the value is what the digits say, however many of them there are
+        // many parameters WITH sub-parameters in one sequence (every slot keeps its own)
+        "4:1;4:2;4:3;4:1;4:2;4:3;4:1;4:2;38:5:9;5;1", "1:1;2:2;3:3;4:4;5:5;6:6;7:7;8:8;9:9;38:2:1:2:3;4", "4:3;4:3;4:3;4:3;4:3;4:3;4:3;4:3;4:3;4:3;4:3;4:3;48:5:200;7",
         "000003", "0000000005;0000000007", "00000000000000000001", "000000", "0000065535", "1;000002;3", "38;5;0000200", "38:2:0000001:0000002:0000003",
     ]
     .iter()
@@ -243,7 +245,11 @@ fn dispatch_shapes(ctx: &Ctx, rep: &mut Report) {
 /// by `run_pair`).
 fn sgr_shapes(ctx: &Ctx, rep: &mut Report) {
     let t0 = Instant::now();
-    let atoms = ["38", "48", "2", "5", "1", "3", "9", "2:7", "5:9", "38:5:1", "48:2::1:2:3", "", "38:2:1:2:3", "5:0"];
+    let atoms = [
+        "38", "48", "2", "5", "1", "3", "9", "2:7", "5:9", "38:5:1", "48:2::1:2:3", "", "38:2:1:2:3", "5:0",
+        // selectors that are 2 / 5 only modulo 256 or 65536: no colour
+        "38:261:7", "48:258:1:2:3", "38:65541:9",
+    ];
     let k = ctx.tier.pick(4usize, 5usize);
     let mut lists: Vec<String> = vec![];
     let mut level: Vec<Vec<&str>> = vec![vec![]];
